@@ -45,12 +45,16 @@ def cases(tier, seed):
                     "mask": bool(rng.random() < 0.4),
                     "chunks": ("numpy", "full", "images", "space", "both", "both")[int(rng.integers(0, 6))],
                     "sched": ("sync", "threads", "shuffle")[int(rng.integers(0, 3))],
-                    "flat": bool(rng.random() < 0.3),
+                    "flat": bool(rng.random() < 0.3), "sdtype": ("float32", "float32", "float32", "int16")[int(rng.integers(0, 4))],
                     "iseed": int(rng.integers(0, 2**31)), "cost": 2.0 + S ** 3 / 300})
     for i in range(nl):
         out.append({"kind": "loader", "N": int(rng.integers(8, 21)), "S": int(rng.choice([6, 7, 8])),
                     "sched": ("sync", "threads", "shuffle")[int(rng.integers(0, 3))],
                     "tilt": bool(rng.random() < 0.4), "iseed": int(rng.integers(0, 2**31)), "cost": 8.0})
+    for i in range(6 if tier == "quick" else 80):
+        sizes = [(150, 5, 5), (120, 6, 4), (90, 40, 4), (200, 5), (60, 8, 5, 4)][int(rng.integers(0, 5))]
+        out.append({"kind": "clusters", "S": int(rng.choice([6, 7])), "sizes": list(sizes), "seeds": 12,
+                    "dask": bool(rng.random() < 0.5), "iseed": int(rng.integers(0, 2**31)), "cost": 10.0})
     for i in range(nl):
         out.append({"kind": "wmd", "N": int(rng.integers(8, 17)), "S": int(rng.choice([6, 7])),
                     "sched": ("sync", "threads", "shuffle")[int(rng.integers(0, 3))],
@@ -91,6 +95,10 @@ def _stack_case(case):
         grp[:2], grp[-2:] = 0, 1
     X = X + 400.0 * np.outer(grp - grp.mean(), Q[:, 0])
     stack = X.reshape(N, S, S, S).astype(np.float32)
+    if p.get("sdtype") == "int16" and not flat and D <= 500:
+        # an integer-typed stack (raw counts): the PCA is that of (stack * mask) in floating point
+        stack = np.clip(np.round(X.reshape(N, S, S, S) * 20), -32000, 32000).astype(np.int16)
+        case.count("integer_stacks")
     mask = None
     if p["mask"]:
         zz = np.indices((S, S, S)) - (S - 1) / 2
@@ -307,7 +315,51 @@ def _wedge(model, quat):
     return np.asarray(model._get_missing_wedge_mask(quat, Backend()))
 
 
+def _cluster_case(case):
+    """Clearly separated groups of very different sizes end up in distinct clusters for every k-means seed."""
+    import dask.array as da
+    from acryo.classification import PcaClassifier
+
+    p = case.params
+    rng = gen.rng_for(p["iseed"], "c18c")
+    S = p["S"]
+    shape = (S, S, S)
+    sizes = p["sizes"]
+    G = len(sizes)
+    zz = np.indices(shape).astype(float)
+    cen = [rng.uniform(1.5, S - 2.5, 3) for _ in range(G)]
+    while min(np.linalg.norm(cen[i] - cen[j]) for i in range(G) for j in range(i + 1, G)) < 2.2:
+        cen = [rng.uniform(1.5, S - 2.5, 3) for _ in range(G)]
+    tm = np.stack([np.exp(-((zz - c[:, None, None, None]) ** 2).sum(0) / (2 * 1.2 ** 2)) for c in cen])
+    truth = np.repeat(np.arange(G), sizes)
+    truth = truth[rng.permutation(truth.size)]
+    stack = (tm[truth] + 0.2 * rng.normal(size=(truth.size,) + shape)).astype(np.float32)
+    # certify the separation with the exact PCA
+    flat_ = stack.reshape(truth.size, -1).astype(np.float64)
+    cent = flat_ - flat_.mean(0)
+    vt = np.linalg.svd(cent, full_matrices=False)[2]
+    k = G - 1
+    proj = cent @ vt[:k].T
+    cc = np.stack([proj[truth == g].mean(0) for g in range(G)])
+    rad = max(np.sqrt(((proj[truth == g] - cc[g]) ** 2).sum(1).mean()) for g in range(G))
+    dmin = min(np.linalg.norm(cc[i] - cc[j]) for i in range(G) for j in range(i + 1, G))
+    if not (dmin / rad >= 6.0 and np.linalg.norm(proj - cc[truth], axis=1).max() < dmin / 3):
+        case.count("cluster_scenario_not_separated")
+        return
+    case.nontrivial(p["iseed"])
+    inp = da.from_array(stack, chunks=(max(2, truth.size // 4),) + shape) if p["dask"] else stack
+    for seed in range(p["seeds"]):
+        clf = PcaClassifier(inp, None, n_components=k, n_clusters=G, seed=seed).run()
+        lab = np.asarray(clf.labels)
+        groups = [set(lab[truth == g].tolist()) for g in range(G)]
+        ok = all(len(gs) == 1 for gs in groups) and len(set.union(*groups)) == G
+        case.check(ok, "clearly separated groups of unequal size were not assigned to distinct clusters", None,
+                   seed=seed, sizes=list(sizes), clusters=[sorted(gs) for gs in groups], separation=float(dmin / rad))
+
+
 def run(case):
+    if case.params["kind"] == "clusters":
+        return _cluster_case(case)
     if case.params["kind"] == "wmd":
         return _wmd_case(case)
     if case.params["kind"] == "stack":
